@@ -295,7 +295,13 @@ func cmdCheck(args []string) int {
 			}
 			fnsUnder = append(fnsUnder, fc.Fn)
 			fx := v.newFnCtx(fn, spec)
-			fx.generate()
+			if msg := safeGenerate(fx); msg != "" {
+				// the function uses a construct outside the verifier's subset: it can no longer be verified, which is a
+				// failed (named) obligation, not a crash of the check
+				n := fx.short + ".unsupported@engine"
+				results[n] = &ObResult{Name: n, Fn: fx.short, Kind: "unsupported", Status: "failed", Clause: "function is outside the verified subset: " + msg, Fail: &Failure{Answers: map[string]string{}}}
+				continue
+			}
 			stale = append(stale, fx.errors...)
 			v.solveFn(fx, mkFilter(fx.short, fc), results)
 			for a := range fx.env.assumptions {
@@ -456,4 +462,18 @@ func (k *KnownFile) match(prop, ob string) *Known {
 		}
 	}
 	return nil
+}
+
+// safeGenerate runs VC generation and turns an engine panic (unsupported type or instruction) into a message.
+func safeGenerate(fx *FnCtx) (msg string) {
+	defer func() {
+		if r := recover(); r != nil {
+			msg = fmt.Sprint(r)
+			if len(msg) > 300 {
+				msg = msg[:300]
+			}
+		}
+	}()
+	fx.generate()
+	return ""
 }
